@@ -494,3 +494,92 @@ def r_count(F, engine, fn):
                                    "cursor advances by the returned count",
                                    "`%s`, returned count is %s" % (fmt_term(fn.term(nd["id"])), fmt_term(R))))
     return out
+
+
+# ------------------------------------------------------------------------------------------
+# R-GUARD: a bounds guard refuses exactly the out-of-bounds arguments
+def linear(t):
+    """Linear form of a value term over Z: ({atom: coef}, const). Non-arithmetic terms are atoms."""
+    if t[0] == "const":
+        return {}, t[1]
+    if t[0] == "op" and t[1] in ("+", "-"):
+        a, ca = linear(t[2])
+        b, cb = linear(t[3])
+        sgn = 1 if t[1] == "+" else -1
+        out = dict(a)
+        for k, v in b.items():
+            out[k] = out.get(k, 0) + sgn * v
+        return {k: v for k, v in out.items() if v != 0}, ca + sgn * cb
+    if t[0] == "op" and t[1] == "*" and (t[2][0] == "const" or t[3][0] == "const"):
+        c, o = (t[2][1], t[3]) if t[2][0] == "const" else (t[3][1], t[2])
+        a, ca = linear(o)
+        return {k: v * c for k, v in a.items() if v * c != 0}, ca * c
+    return {t: 1}, 0
+
+
+def lin_diff(hi, lo):
+    a, ca = linear(hi)
+    b, cb = linear(lo)
+    out = dict(a)
+    for k, v in b.items():
+        out[k] = out.get(k, 0) - v
+    return frozenset((k, v) for k, v in out.items() if v != 0), ca - cb
+
+
+def r_guard_exact(F, engine, fn, specs, invariants=(), label=None):
+    """specs: list of (X, Y) value terms; the operation is in bounds iff X <= Y (over Z). Every throwing guard of fn
+    must refuse exactly Y < X, or be a recognised wrap refusal, or be trivially false."""
+    engine.analyze(fn, frozenset(invariants))
+    g = engine.cfg(fn)
+    out = []
+    inst0 = label or fn.qn
+    gbs = guard_blocks(engine, fn)
+    targets = [lin_diff(x, y) for (x, y) in specs]      # X - Y  (> 0 means out of bounds)
+    matched = set()
+    for (b, cid, thr, nxt) in gbs:
+        truth = [l for (t, l) in g.succ[b] if t == thr][0]
+        cfs = cond_facts(fn, cid, truth)
+        site = final_site_facts(engine, fn, cid) or set()
+        defs = definitions(site)
+        for f in cfs:
+            inst = "%s#guard:%s" % (inst0, fmt_fact(f))
+            req = "the refusal condition is exactly the out-of-bounds condition (%s)" % " or ".join(
+                "%s > %s" % (fmt_term(x), fmt_term(y)) for (x, y) in specs)
+            if f[0] not in ("<", "<="):
+                out.append(bad("R-GUARD", inst, fn.loc(cid), fn.qn, req, "refusal condition `%s` is not a bounds comparison" % fmt_fact(f)))
+                continue
+            L, R = expand(f[1], defs), expand(f[2], defs)
+            # trivially false: constant on the left at least the type maximum of the right operand
+            if L[0] == "const" and L[1] >= (1 << 64) - 1:
+                out.append(ok("R-GUARD", inst, fn.loc(cid), fn.qn, req, "never true for a 64-bit operand (refuses nothing)", nontrivial=False))
+                continue
+            # wrap post-check: sum < operand
+            if f[0] == "<" and L[0] == "op" and L[1] == "+" and R in (L[2], L[3]):
+                out.append(ok("R-GUARD", inst, fn.loc(cid), fn.qn, req, "wrap refusal: sum < operand (the true sum exceeds 2^64)"))
+                continue
+            # wrap pre-check: MAX - u < v
+            if f[0] == "<" and L[0] == "op" and L[1] == "-" and L[2][0] == "const" and L[2][1] in ((1 << 64) - 1, (1 << 32) - 1):
+                out.append(ok("R-GUARD", inst, fn.loc(cid), fn.qn, req, "wrap refusal: operand > MAX - other operand"))
+                continue
+            d = lin_diff(R, L)          # R - L > 0 (or >= 0) is refused
+            hit = [i for i, t in enumerate(targets) if t == d]
+            if hit and f[0] == "<":
+                matched.add(hit[0])
+                out.append(ok("R-GUARD", inst, fn.loc(cid), fn.qn, req, "refuses exactly %s > %s" % (fmt_term(specs[hit[0]][0]), fmt_term(specs[hit[0]][1]))))
+            elif hit:
+                out.append(bad("R-GUARD", inst, fn.loc(cid), fn.qn, req,
+                               "off by one: `%s` also refuses the in-bounds boundary value %s == %s" % (
+                                   fmt_fact(f), fmt_term(specs[hit[0]][0]), fmt_term(specs[hit[0]][1]))))
+            else:
+                # same linear form up to a constant -> off by a constant
+                near = [i for i, t in enumerate(targets) if t[0] == d[0]]
+                if near:
+                    out.append(bad("R-GUARD", inst, fn.loc(cid), fn.qn, req,
+                                   "refusal `%s` differs from the bounds condition by the constant %d" % (fmt_fact(f), d[1] - targets[near[0]][1])))
+                else:
+                    out.append(bad("R-GUARD", inst, fn.loc(cid), fn.qn, req, "refusal `%s` is not the bounds condition" % fmt_fact(f)))
+    for i, (x, y) in enumerate(specs):
+        if i not in matched:
+            out.append(bad("R-GUARD", "%s#missing:%s>%s" % (inst0, fmt_term(x), fmt_term(y)), fn.loc(fn.body), fn.qn,
+                           "a guard refuses %s > %s" % (fmt_term(x), fmt_term(y)), "no throwing guard with that condition"))
+    return out
